@@ -698,7 +698,7 @@ func c20r6(c *core.Ctx) {
 	core.Instrs(f, func(i ssa.Instruction) {
 		if b, ok := i.(*ssa.BinOp); ok {
 			if k, isK := core.ConstInt(b.Y); isK {
-				if b.Op == token.LSS && k == 9 {
+				if n, ok := tripCount(b); ok && n == 9 {
 					nine = true
 				}
 				if b.Op == token.QUO && k == 36 {
@@ -712,6 +712,57 @@ func c20r6(c *core.Ctx) {
 			}
 		}
 	})
+	// most significant digit first: the index written decreases while the payload is divided
+	msbFirst := false
+	core.Instrs(f, func(i ssa.Instruction) {
+		st, ok := i.(*ssa.Store)
+		if !ok {
+			return
+		}
+		ia, ok := st.Addr.(*ssa.IndexAddr)
+		if !ok {
+			return
+		}
+		// the stored value is indexed by payload % 36
+		fromRem := false
+		walkOperands(st.Val, 4, func(v ssa.Value) {
+			if b, ok := v.(*ssa.BinOp); ok && b.Op == token.REM {
+				if k, isK := core.ConstInt(b.Y); isK && k == 36 {
+					fromRem = true
+				}
+			}
+		})
+		if !fromRem {
+			return
+		}
+		dir := func(ph *ssa.Phi) int {
+			for _, e := range ph.Edges {
+				if bo, isB := e.(*ssa.BinOp); isB && core.StripConv(bo.X) == ssa.Value(ph) {
+					if c, isK := core.ConstInt(bo.Y); isK && c == 1 {
+						if bo.Op == token.ADD {
+							return 1
+						}
+						if bo.Op == token.SUB {
+							return -1
+						}
+					}
+				}
+			}
+			return 0
+		}
+		idx := core.StripConv(ia.Index)
+		if ph, ok := idx.(*ssa.Phi); ok && dir(ph) == -1 {
+			msbFirst = true
+		}
+		if bo, ok := idx.(*ssa.BinOp); ok && bo.Op == token.SUB {
+			if _, isK := evalInt(bo.X, 3); isK {
+				if ph, ok := core.StripConv(bo.Y).(*ssa.Phi); ok && dir(ph) == 1 {
+					msbFirst = true
+				}
+			}
+		}
+	})
+	c.Check(msbFirst, "base36-order@"+fname(f), f.Pos(), "digits are stored most significant first", "the base-36 digits are not stored most significant first: the URI encodes another payload")
 	c.Check(nine && div36 && prefix, "base36-digits@"+fname(f), f.Pos(), "nine base-36 digits after X-HM://, setup id appended", "the payload is not rendered as nine base-36 digits after X-HM://")
 	// Config.XHMURI passes pin, setup id and category of the same config
 	if g := p.Func("", "(*Config).XHMURI"); g != nil {
@@ -793,4 +844,98 @@ func operandReaches(v, target ssa.Value, depth int) bool {
 		}
 	}
 	return false
+}
+
+// tripCount: cond is the test of a counting loop  for i := a; i <op> k; i += s  with constant a, k and s = +1/-1; returns the
+// number of iterations.
+func tripCount(cond *ssa.BinOp) (int64, bool) {
+	k, ok := core.ConstInt(cond.Y)
+	if !ok {
+		return 0, false
+	}
+	ph, ok := core.StripConv(cond.X).(*ssa.Phi)
+	if !ok || len(ph.Edges) != 2 {
+		return 0, false
+	}
+	var a, s int64
+	haveA, haveS := false, false
+	for _, e := range ph.Edges {
+		if bo, isB := e.(*ssa.BinOp); !(isB && core.StripConv(bo.X) == ssa.Value(ph)) {
+			if c, isK := evalInt(e, 3); isK {
+				a, haveA = c, true
+				continue
+			}
+		}
+		if bo, isB := e.(*ssa.BinOp); isB && core.StripConv(bo.X) == ssa.Value(ph) {
+			if c, isK := core.ConstInt(bo.Y); isK && c == 1 {
+				switch bo.Op {
+				case token.ADD:
+					s, haveS = 1, true
+				case token.SUB:
+					s, haveS = -1, true
+				}
+			}
+		}
+	}
+	if !haveA || !haveS {
+		return 0, false
+	}
+	switch {
+	case s == 1 && cond.Op == token.LSS:
+		return k - a, k >= a
+	case s == 1 && cond.Op == token.LEQ:
+		return k - a + 1, k+1 >= a
+	case s == -1 && cond.Op == token.GEQ:
+		return a - k + 1, a+1 >= k
+	case s == -1 && cond.Op == token.GTR:
+		return a - k, a >= k
+	}
+	return 0, false
+}
+
+// evalInt folds constants, len() of values of known length and +/- of those.
+func evalInt(v ssa.Value, depth int) (int64, bool) {
+	v = core.StripConv(v)
+	if k, ok := core.ConstInt(v); ok {
+		return k, true
+	}
+	if depth == 0 {
+		return 0, false
+	}
+	if call, ok := v.(*ssa.Call); ok {
+		if b, isB := call.Call.Value.(*ssa.Builtin); isB && (b.Name() == "len" || b.Name() == "cap") {
+			return knownLen(call.Call.Args[0])
+		}
+	}
+	if bo, ok := v.(*ssa.BinOp); ok {
+		x, ok1 := evalInt(bo.X, depth-1)
+		y, ok2 := evalInt(bo.Y, depth-1)
+		if ok1 && ok2 {
+			switch bo.Op {
+			case token.ADD:
+				return x + y, true
+			case token.SUB:
+				return x - y, true
+			}
+		}
+	}
+	return 0, false
+}
+
+// walkOperands visits v and its transitive operands (bounded depth).
+func walkOperands(v ssa.Value, depth int, f func(ssa.Value)) {
+	if v == nil {
+		return
+	}
+	f(v)
+	if depth == 0 {
+		return
+	}
+	if i, ok := v.(ssa.Instruction); ok {
+		for _, op := range i.Operands(nil) {
+			if *op != nil {
+				walkOperands(*op, depth-1, f)
+			}
+		}
+	}
 }
